@@ -4,6 +4,120 @@ import ast
 from extract import Skip, src, find_func, lean_bool, lean_str, HEADER
 
 REL = 'pedantic/decorators/cls_deco_frozen_dataclass.py'
+REL_CTX = 'pedantic/get_context.py'
+
+
+def probe_frames():
+    """live: the frames between a dataclass __post_init__ and whoever calls the constructor / dataclasses.replace (innermost first)"""
+    import dataclasses, sys
+    rec = {}
+
+    @dataclasses.dataclass(frozen=True)
+    class _Probe:
+        x: int = 0
+
+        def __post_init__(self):
+            names, f = [], sys._getframe(1)
+            while f is not None and f.f_code.co_name != '_probe_caller':
+                names.append(f.f_code.co_name); f = f.f_back
+            rec['frames'] = names
+
+    def _probe_caller(how):
+        return _Probe() if how == 'ctor' else dataclasses.replace(_Probe.__new__(_Probe), x=1)
+    _probe_caller('ctor'); init = rec['frames']
+    _probe_caller('replace'); rep = rec['frames']
+    if rep[:len(init)] != init:
+        raise Skip('dataclasses.replace does not end in __init__')
+    return init, rep[len(init):]
+
+
+def context_facts(repo, tree, npi, vt):
+    """which frame validate_types resolves forward references in: the walk of `_get_context_of_caller` (start depth, the tests that
+    make a frame internal, the code objects handed in by new_post_init), the default of a user call of validate_types(), the merge
+    order of the context dict, and the shape of get_context itself"""
+    def calls(fn, name):
+        return [n for n in ast.walk(fn) if isinstance(n, ast.Call) and isinstance(n.func, ast.Name) and n.func.id == name]
+    def depth_of(call):
+        if call.args and isinstance(call.args[0], ast.Constant): return call.args[0].value
+        for k in call.keywords:
+            if k.arg == 'depth' and isinstance(k.value, ast.Constant): return k.value.value
+        if not call.args and not any(k.arg == 'depth' for k in call.keywords): return 1
+        raise Skip('get_context: depth is not a constant')
+    try:
+        helper = find_func(tree, '_get_context_of_caller')
+    except Exception:
+        raise Skip('no _get_context_of_caller: the frame selection of new_post_init is not in the translated subset')
+    if helper is None:
+        raise Skip('no _get_context_of_caller: the frame selection of new_post_init is not in the translated subset')
+    c1 = calls(npi, '_get_context_of_caller')
+    if len(c1) != 1 or calls(npi, 'get_context'): raise Skip('new_post_init: expected exactly one _get_context_of_caller call')
+    kw = {k.arg: k.value for k in c1[0].keywords}
+    if c1[0].args or set(kw) != {'instance', 'skip'} or not isinstance(kw['skip'], (ast.Tuple, ast.List, ast.Set)):
+        raise Skip('new_post_init: call of _get_context_of_caller not understood')
+    inst_is_self = ast.unparse(kw['instance']) == 'self'
+    codes = []
+    for e in kw['skip'].elts:
+        if isinstance(e, ast.Attribute) and e.attr == '__code__' and isinstance(e.value, ast.Name): codes.append(e.value.id)
+        else: raise Skip('new_post_init: skip entry not understood')
+    pv = ast.unparse(next((s for s in npi.body if 'validate_types' in ast.unparse(s)), ast.Pass()))
+    passes = '_context=context' in pv.replace(' ', '') and any(isinstance(s, ast.Assign) and ast.unparse(s.targets[0]) == 'context'
+                                                                 and c1[0] is s.value for s in npi.body)
+    # the helper: frame = sys._getframe(N); while frame.f_back is not None and (t1 or t2 ...): frame = frame.f_back; return {**g, **l}
+    body = [s for s in helper.body if not (isinstance(s, ast.Expr) and isinstance(s.value, ast.Constant))]
+    if len(body) != 3 or not isinstance(body[0], ast.Assign) or not isinstance(body[1], ast.While) or not isinstance(body[2], ast.Return):
+        raise Skip('_get_context_of_caller: unexpected shape')
+    m = body[0].value
+    if not (ast.unparse(body[0].targets[0]) == 'frame' and isinstance(m, ast.Call) and ast.unparse(m.func) == 'sys._getframe'
+            and len(m.args) == 1 and isinstance(m.args[0], ast.Constant)):
+        raise Skip('_get_context_of_caller: start frame not understood')
+    start = m.args[0].value
+    w = body[1]
+    if w.orelse or len(w.body) != 1 or ast.unparse(w.body[0]).replace(' ', '') != 'frame=frame.f_back':
+        raise Skip('_get_context_of_caller: loop body not understood')
+    t = w.test
+    stops_at_last, tests = False, []
+    if isinstance(t, ast.BoolOp) and isinstance(t.op, ast.And) and len(t.values) == 2 and ast.unparse(t.values[0]) == 'frame.f_back is not None':
+        stops_at_last = True
+        t = t.values[1]
+    disj = t.values if isinstance(t, ast.BoolOp) and isinstance(t.op, ast.Or) else [t]
+    names = {'frame.f_code in skip': 'code_in_skip', "frame.f_globals.get('__name__') == 'dataclasses'": 'module_is_dataclasses',
+             'any((value is instance for value in frame.f_locals.values()))': 'holds_instance'}
+    for d in disj:
+        tests.append(names.get(ast.unparse(d), 'other:' + ast.unparse(d)))
+    r = body[2].value
+    if not isinstance(r, ast.Dict) or any(k is not None for k in r.keys): raise Skip('_get_context_of_caller: return not understood')
+    hmerge = [ast.unparse(v).replace('frame.f_', '') for v in r.values]
+    # validate_types: default context of a user call, merge order
+    c2 = calls(vt, 'get_context')
+    if len(c2) != 1: raise Skip('validate_types: expected one get_context call')
+    guarded = any(isinstance(s, ast.If) and ast.unparse(s.test) == '_context is None' and c2[0] in list(ast.walk(s)) for s in vt.body)
+    ctx_assign = [s.value for s in vt.body if isinstance(s, ast.Assign) and isinstance(s.targets[0], ast.Name) and s.targets[0].id == '_context'
+                  and isinstance(s.value, ast.Dict)]
+    if len(ctx_assign) != 1: raise Skip('validate_types: expected one dict display assigned to _context')
+    order = []
+    for k, v in zip(ctx_assign[0].keys, ctx_assign[0].values):
+        tx = ast.unparse(v)
+        if k is None and tx == '_context': order.append('caller')
+        elif k is None and tx == 'self.__init__.__globals__': order.append('globals')
+        elif k is not None and ast.unparse(k) == 'self.__class__.__name__' and tx == 'self.__class__': order.append('own')
+        else: order.append('other:' + tx)
+    # get_context itself
+    g = find_func(ast.parse(src(repo, REL_CTX)), 'get_context')
+    mode = 'none'
+    for n in ast.walk(g):
+        if isinstance(n, ast.While) and 'increase_depth_if_name_matches' in ast.unparse(n.test) and \
+                any(ast.unparse(x).replace(' ', '') == 'frame=frame.f_back' for x in n.body):
+            mode = 'loop'
+        if isinstance(n, ast.If) and 'increase_depth_if_name_matches' in ast.unparse(n.test) and \
+                any(ast.unparse(x).replace(' ', '') == 'frame=sys._getframe(depth+1)' for x in n.body):
+            mode = 'once' if mode == 'none' else mode
+    first = [s for s in g.body if isinstance(s, ast.Assign) and ast.unparse(s).replace(' ', '') == 'frame=sys._getframe(depth)']
+    rets = [s for s in g.body if isinstance(s, ast.Return)]
+    if len(first) != 1 or len(rets) != 1 or not isinstance(rets[0].value, ast.Dict) or any(k is not None for k in rets[0].value.keys):
+        raise Skip('get_context: unexpected shape')
+    merge = [ast.unparse(v).replace('frame.f_', '') for v in rets[0].value.values]
+    return {'start': start, 'stops': stops_at_last, 'tests': tests, 'codes': codes, 'inst_is_self': inst_is_self, 'passes': passes,
+            'hmerge': hmerge, 'd2': depth_of(c2[0]), 'guarded': guarded, 'order': order, 'mode': mode, 'merge': merge}
 
 
 def gen_typesafe(repo):
@@ -60,6 +174,9 @@ def gen_typesafe(repo):
     shortcut = find_func(tree, 'frozen_type_safe_dataclass')
     shortcut_ok = 'frozen_dataclass(type_safe=True)(cls)' in ast.unparse(shortcut)
 
+    cf = context_facts(repo, tree, npi, vt)
+    init_frames, replace_frames = probe_frames()
+
     L = [HEADER.format(rel=REL), 'namespace PedVerif.Gen.TypeSafe\n']
     L.append('/-- validate_types: `for field in fields(...)`: every field, in order, nothing leaves the loop early, no try around it -/')
     L.append(f'def validateOverAllFields : Bool := {lean_bool(over_all_fields)}')
@@ -79,6 +196,23 @@ def gen_typesafe(repo):
     L.append(f'def copyWithIsReplace : Bool := {lean_bool(copy_is_replace)}')
     L.append(f'def deepCopyCallsConstructor : Bool := {lean_bool(deep_calls_ctor)}')
     L.append(f'def shortcutIsTypeSafe : Bool := {lean_bool(shortcut_ok)}')
+    L.append('/-- which frame forward references are resolved in: the frame walk of `_get_context_of_caller` used by new_post_init, the')
+    L.append('    default of a user call of validate_types(), the order of the dict display `{**_context, **globals, own class}`, the shape of')
+    L.append('    get_context (pedantic/get_context.py), and - live - the frames between __post_init__ and the caller -/')
+    L.append(f'def callerStartDepth : Nat := {cf["start"]}')
+    L.append(f'def callerWalkStopsAtLastFrame : Bool := {lean_bool(cf["stops"])}')
+    L.append('def callerSkipTests : List String := [' + ', '.join(lean_str(x) for x in cf['tests']) + ']')
+    L.append('def callerSkipCodes : List String := [' + ', '.join(lean_str(x) for x in cf['codes']) + ']')
+    L.append(f'def callerInstanceIsSelf : Bool := {lean_bool(cf["inst_is_self"])}')
+    L.append(f'def postInitPassesCallerContext : Bool := {lean_bool(cf["passes"])}')
+    L.append('def callerContextMerge : List String := [' + ', '.join(lean_str(x) for x in cf['hmerge']) + ']')
+    L.append(f'def validateContextDepth : Nat := {cf["d2"]}')
+    L.append(f'def validateContextOnlyWhenNone : Bool := {lean_bool(cf["guarded"])}')
+    L.append('def contextMergeOrder : List String := [' + ', '.join(lean_str(x) for x in cf['order']) + ']')
+    L.append(f'def getContextSkipMode : String := {lean_str(cf["mode"])}')
+    L.append('def getContextMerge : List String := [' + ', '.join(lean_str(x) for x in cf['merge']) + ']')
+    L.append('def initFrames : List String := [' + ', '.join(lean_str(x) for x in init_frames) + ']')
+    L.append('def replaceFrames : List String := [' + ', '.join(lean_str(x) for x in replace_frames) + ']')
     L.append('\nend PedVerif.Gen.TypeSafe')
     return '\n'.join(L) + '\n'
 
